@@ -356,6 +356,8 @@ class SVG:
         self.elements = []
 
     def _clone(self) -> "SVG":
+        # write pending (cached) shape edits to the tree first, or the copy would miss them
+        self._update_etree()
         return SVG(svg_root=copy.deepcopy(self.svg_root))
 
     def _elements(self) -> List[Tuple[etree.Element, Tuple[SVGShape, ...]]]:
@@ -1000,7 +1002,7 @@ class SVG:
 
     def remove_processing_instructions(self, inplace=False):
         if not inplace:
-            svg = SVG(copy.deepcopy(self.svg_root))
+            svg = self._clone()
             svg.remove_processing_instructions(inplace=True)
             return svg
 
@@ -1174,7 +1176,7 @@ class SVG:
 
         nested_svgs = list(self._iter_nested_svgs(self.svg_root))
         if len(nested_svgs) == 0:
-            return
+            return self
 
         vb = self.view_box()
         if vb is None:
